@@ -159,6 +159,8 @@ type Unit struct {
 	usesLocks     bool
 	knownLits     map[string]*litInfo
 	methodConsts  map[string]bool
+	calleeFacts   map[string]bool
+	namedResults  map[string]bool
 	inputConst    string
 	inputKind     string
 	ghosts        map[string]types.Object
